@@ -68,6 +68,8 @@ def gen_cases(tier, seed):
         yield {"kind": "alphas", "seed": r.randrange(1 << 30), "sample": N77[i % 5], "reference": N77[(i + 2) % 5]}
     for i in range(24 if tier == "quick" else 300):
         yield {"kind": "isosteric", "seed": r.randrange(1 << 30)}
+    for i in range(6 if tier == "quick" else 60):
+        yield {"kind": "isosteric_mixed", "seed": r.randrange(1 << 30)}
     for entry, src, force in (("area_BET", 4, [["absolute", "bar"], ["molar", "mmol"]]), ("t_plot", 4, [["absolute", "bar"], ["mass", "mg"]]), ("dr_plot", 4, [["absolute", "kPa"], ["molar", "mol"]]),
                               ("initial_henry_slope", 5, [["absolute", "MPa"], ["mass", "mg"]]), ("initial_henry_slope", 5, [["absolute", "bar"], ["molar", "cm3(STP)"]]),
                               ("initial_henry_slope", 5, [["absolute", "Pa"], ["mass", "g"]]), ("initial_henry_slope", 8, [["absolute", "Pa"], ["molar", "mmol"]]),
@@ -482,6 +484,39 @@ def _run_isosteric(case, ctx):
     if a.shape != b.shape or not numpy.allclose(a, b, rtol=rt, atol=0):
         ctx.violation("isosteric_enthalpy/temperature-dependent-loading-basis/isosteres-not-at-constant-amount" if tdep else "isosteric_enthalpy/changes-with-units",
                       "the isosteric enthalpy changes when all isotherms are expressed in other common units", a=a[:4], b=b[:4], **info)
+
+
+def _run_isosteric_mixed(case, ctx):
+    """A set in which one isotherm (not the first) is stored in another molar loading unit, analysed on the automatic loading grid:
+    the grid and the result are those of the set in common units."""
+    from pygaps import characterisation as ch
+    r = gen.rng(case["seed"], "ism")
+    isos = [_load(f, "isosteric") for f in ISOSTERIC]
+    ra = _call(ch.isosteric_enthalpy, isos)
+    if ra[0] != "ok":
+        ctx.count("skipped", "isosteric refused on the source set")
+        return
+    twins = [gen.copy_point(i) for i in isos]
+    k = r.randrange(1, len(twins))
+    unit = r.choice(["mol", "cm3(STP)"])
+    try:
+        twins[k].convert_loading(basis_to="molar", unit_to=unit)
+    except Exception:
+        ctx.count("skipped", "conversion refused")
+        return
+    rb = _call(ch.isosteric_enthalpy, twins)
+    ctx.case(["isosteric-mixed-loading-units", k, unit])
+    ctx.count("twins", "isosteric_enthalpy/one-isotherm-in-another-loading-unit")
+    if rb[0] != "ok":
+        ctx.violation("isosteric_enthalpy/raises-with-mixed-loading-units/%s" % type(rb[1]).__name__, "the analysis of a set succeeds but raises when one isotherm is stored in another loading unit", exc=rb[1], which=k, unit=unit)
+        return
+    rt = max(1e-6, RU.rtol_for(unit) * 50)
+    for fld in ("loading", "isosteric_enthalpy"):
+        a, b = numpy.asarray(ra[1][fld], dtype=float), numpy.asarray(rb[1][fld], dtype=float)
+        if a.shape != b.shape or not numpy.allclose(a, b, rtol=rt, atol=0):
+            ctx.violation("isosteric_enthalpy/changes-with-mixed-loading-units/%s" % fld, "the automatic loading grid / the enthalpy changes when one isotherm of the set is stored in another loading unit", a=a[:4], b=b[:4],
+                          which=k, unit=unit)
+            return
 
 
 def finalize(ctx):
